@@ -414,6 +414,37 @@ def rule_components_init(repo, rep):
         else:
           rep.refuted(Rt, key, site(f), 'value %r raises %s' % (
               opt, [n[0] for (n, s, nd) in flow.raises]))
+  # shapes of the initial transformations
+  Rk = 'SHAPE:init-options-k-by-d'
+  rep.rule(Rk, "every string option of _initialize_components returns an "
+           "array of symbolic shape (n_components, n_features): np.eye(k, d), "
+           "randn(k, d), PCA(n_components=k).components_, "
+           "lda.scalings_.T[:k]")
+  from ..shape import ShapeDomain, arr as _arr, dims_of as _dims
+  for opt in ('identity', 'random', 'pca', 'lda'):
+    sd = ShapeDomain()
+    sd.summary = lambda *a, **k: None
+    eng = Engine(repo, sd)
+    flow = eng.run(f, args={'init': cv(opt, None),
+                            'n_components': V(('dim', 'k')),
+                            'input': V(_arr('n', 'd'), ty='ndarray'),
+                            'y': V(_arr('n'), ty='ndarray'),
+                            'has_classes': cv(True, None),
+                            'verbose': cv(False, None)})
+    key = '_util._initialize_components:%s:shape' % opt
+    rets = [(v, nd) for (v, st_, nd) in flow.returns]
+    if not rets:
+      rep.unknown(Rk, key, site(f), 'no return')
+    for (v, nd) in rets:
+      dd = _dims(v.d)
+      if dd is None:
+        rep.unknown(Rk, key, site(f, nd), 'shape not derivable')
+      elif tuple(dd) == ('k', 'd'):
+        rep.derived(Rk, key, site(f, nd))
+      else:
+        rep.refuted(Rk, key, site(f, nd), "init=%r returns an array of "
+                    "shape %s, documented (n_components, n_features)"
+                    % (opt, tuple(map(str, dd))))
   # auto rule
   g = repo.get_func('_util._auto_select_init')
   rep.analysed(g)
